@@ -102,6 +102,12 @@ uint64_t cmb_datasummary_merge(struct cmb_datasummary *tgt,
     struct cmb_datasummary cs = { 0 };
     cmb_datasummary_initialize(&cs);
     cs.count = dsp1->count + dsp2->count;
+    if (cs.count == 0u) {
+        /* Both empty, so is the result. Avoid dividing zero by zero below. */
+        *tgt = cs;
+        return 0u;
+    }
+
     cs.min = (dsp1->min < dsp2->min) ? dsp1->min : dsp2->min;
     cs.max = (dsp1->max > dsp2->max) ? dsp1->max : dsp2->max;
 
@@ -216,7 +222,7 @@ double cmb_datasummary_skewness(const struct cmb_datasummary *dsp)
     cmb_assert_release(dsp->cookie == CMI_INITIALIZED);
 
     double r = 0.0;
-    if (dsp->count > 2u) {
+    if ((dsp->count > 2u) && (dsp->m2 > 0.0)) {
         /* Estimate population skewness */
         const double dn = (double)dsp->count;
         const double g = sqrt(dn) * dsp->m3 / pow(dsp->m2, 1.5);
@@ -235,7 +241,7 @@ double cmb_datasummary_kurtosis(const struct cmb_datasummary *dsp)
     cmb_assert_release(dsp->cookie == CMI_INITIALIZED);
 
     double r = 0.0;
-    if (dsp->count > 3u) {
+    if ((dsp->count > 3u) && (dsp->m2 > 0.0)) {
         /* Estimate population excess kurtosis */
         const double dn = (double)dsp->count;
         const double g = dn * dsp->m4 / (dsp->m2 * dsp->m2) - 3.0;
